@@ -171,6 +171,18 @@ def real_source(b, c):
     cur = c
     for _ in range(3):
         cn = callee_name(cur.node)
+        if cn.endswith("::try_for_each") or cn.endswith("::try_fold"):
+            # the failure reported is that of the one fallible call made by the closure
+            facts_ = getattr(b, "facts", None)
+            for a_ in cur.node["args"]:
+                al_ = op_local(b.resolve_copy(a_))
+                d_ = b.def_rvalue(al_) if al_ is not None else None
+                if d_ and d_[0] == "rv" and d_[1]["k"] == "agg" and d_[1].get("akind") == "closure" and facts_ is not None:
+                    cb_ = facts_.bodies.get(d_[1].get("name"))
+                    inner_ = [c2 for c2 in cb_.calls() if c2.node.get("dest_ty", "").startswith("std::result::Result")] if cb_ is not None else []
+                    if len(inner_) == 1:
+                        return inner_[0]
+            break
         if cn.endswith("::map_err") or cn.endswith("::map") or cn.endswith("::or_else"):
             inner = call_site_of(b, cur.node["args"][0])
             if inner is None:
